@@ -443,8 +443,9 @@ class Check:
         ev = dict(property_id=self.prop, tier=self.tier, seed=self.seed, level="model_checking", coverage=cov,
                   assumptions=self.assumptions, wall_s=round(wall, 2), violations=len(self.violations),
                   known_findings=[dict(id=k["id"], hits=n) for k, n in self.known_hits.values()])
-        os.makedirs(os.path.join(VERIF, "evidence"), exist_ok=True)
-        with open(os.path.join(VERIF, "evidence", self.prop + ".json"), "w") as f:
+        evdir = os.environ.get("VERIF_EVIDENCE_DIR", os.path.join(VERIF, "evidence"))   # (development: mutant runs write elsewhere)
+        os.makedirs(evdir, exist_ok=True)
+        with open(os.path.join(evdir, self.prop + ".json"), "w") as f:
             json.dump(ev, f, indent=1, sort_keys=True)
             f.write("\n")
         for k, n in self.known_hits.values():
